@@ -462,7 +462,8 @@ vbi_print_page_region(vbi_page *pg, char *buf, int size,
 				goto failure;
 
 			if (table) {
-				*p++ = '\n'; /* XXX convert this (eg utf16) */
+				if (!print_unicode(cd, endian, 0x000A, &p, left))
+					goto failure;
 			} else if (spaces >= (x1 - x0)) {
 				; /* suppress blank line */
 			} else {
@@ -598,6 +599,24 @@ print_char(text_instance *text, int endian, vbi_page *pg, vbi_char old, vbi_char
 }
 
 static vbi_bool
+put_newline			(text_instance *	text,
+				 int			endian)
+{
+	char *p = text->buf;
+
+	/* Must be converted like the text, the output
+	   may be a 16 bit encoding. */
+	if (!print_unicode(text->cd, endian, 0x000A, &p,
+			   sizeof(text->buf))) {
+		vbi_export_write_error(&text->export);
+		return FALSE;
+	}
+
+	return vbi_export_write (&text->export, text->buf,
+				 p - text->buf);
+}
+
+static vbi_bool
 export				(vbi_export *		e,
 				 vbi_page *		pg)
 {
@@ -654,12 +673,11 @@ export				(vbi_export *		e,
 
 		if (row >= pg->rows) {
 			if (text->term > 0)
-				vbi_export_printf (e, "\e[m\n"); /* reset */
-			else
-				vbi_export_putc (e, '\n');
+				vbi_export_printf (e, "\e[m"); /* reset */
+			put_newline (text, endian);
 			break;
 		} else {
-			vbi_export_putc (e, '\n');
+			put_newline (text, endian);
 		}
 	}
 
